@@ -26,7 +26,13 @@
                               the informer events so far, with the declared mode / policy / minimum /
                               gang group / origin and member set ([decl_step], recomputed from the
                               history, not read from the cache) — so clauses 2-6 are judged against
-                              the declared group and minimum *)
+                              the declared group and minimum
+   clause 9  group records    after every op the cache's gang-group records (gangGroupInfoMap), the
+                              record every gang is wired to and its once-satisfied flag are the ones
+                              recomputed from the history ([rec_step]: a record is born unsatisfied when
+                              the first gang attaches under its group id, is marked by a bind of a gang
+                              wired to it, and leaves the map with the last gang of the group) — so
+                              "not yet satisfied" in clauses 2-6 is the history's, not the cache's *)
 From Coq Require Import List ZArith Bool.
 From Verif Require Import C04.Model.
 Import ListNotations.
@@ -203,6 +209,137 @@ Definition decl_match (ds : dstate) (v : sview) : Prop := forall g, decl_match_a
 Definition decl_matchb (ds : dstate) (v : sview) : bool :=
   forallb (decl_match_atb ds v) (map fst ds ++ map fst (sv_gangs v)).
 
+(* ---------- clause 9: the gang-group records, recomputed from the history ----------
+   A GangGroupInfo record carries the sticky once-satisfied flag shared by the gangs of a group.
+   [rec_step] tracks, from the operations alone (plus the declarations tracked by [decl_step] and the
+   pending set of the previous observation for the "nothing to activate" early return of
+   onPodGroupAdd/Update), which record every gang is wired to, which records the cache's map holds
+   under which group id, and which records have seen a bind. Records are numbered by creation. *)
+Record rstate := mkR { r_ptr : list (Z * nat); r_infos : list info; r_gmap : list (list Z * nat) }.
+Definition rstate0 : rstate := mkR [] [] [].
+Definition r_info (rs : rstate) (r : nat) : info := nth r (r_infos rs) placeholder.
+
+(* a gang that enters the cache starts with a private, uninitialised record *)
+Definition r_ensure (g : Z) (rs : rstate) : rstate :=
+  match assocZ g (r_ptr rs) with
+  | Some _ => rs
+  | None => mkR (putZ g (length (r_infos rs)) (r_ptr rs)) (r_infos rs ++ [placeholder]) (r_gmap rs)
+  end.
+
+(* the record of group id [key] is looked up (created unsatisfied when the map has none); the gang
+   is wired to it unless it is already wired to an initialised record *)
+Definition r_attach (g : Z) (key : list Z) (rs : rstate) : rstate :=
+  match assocZ g (r_ptr rs) with
+  | None => rs
+  | Some r0 =>
+      let '(rs1, r) :=
+        match assocL key (r_gmap rs) with
+        | Some r => (rs, r)
+        | None => let r := length (r_infos rs) in
+                  (mkR (r_ptr rs) (r_infos rs ++ [mkInfo true key false]) ((key, r) :: r_gmap rs), r)
+        end in
+      if i_initd (r_info rs1 r0) then rs1 else mkR (putZ g r (r_ptr rs1)) (r_infos rs1) (r_gmap rs1)
+  end.
+
+(* a bind of a member marks the record the gang is wired to *)
+Definition r_setsat (g : Z) (rs : rstate) : rstate :=
+  match assocZ g (r_ptr rs) with
+  | Some r => mkR (r_ptr rs) (upd_nth r (fun i => mkInfo (i_initd i) (i_key i) true) (r_infos rs)) (r_gmap rs)
+  | None => rs
+  end.
+
+(* gang [g] (declaration [d]) leaves the cache; when no gang of its declared group is left, the
+   record it was wired to leaves the map *)
+Definition r_drop (ds : dstate) (g : Z) (d : decl) (rs : rstate) : rstate :=
+  match assocZ g (r_ptr rs) with
+  | None => rs
+  | Some r =>
+      let absent g' := (g' =? g) || match assocZ g' ds with None => true | Some _ => false end in
+      mkR (delZ g (r_ptr rs)) (r_infos rs)
+          (if forallb absent (d_group d) then delL (i_key (r_info rs r)) (r_gmap rs) else r_gmap rs)
+  end.
+
+Definition pending_of (prev : sview) (g : Z) : list Z :=
+  match vget prev g with Some x => v_pending x | None => [] end.
+
+Definition rec_pod (h : hdr) (ds : dstate) (rs : rstate) (p : Z) (node : bool) : rstate :=
+  let g := gang_of h p in
+  if g =? 0 then rs else
+  let rs1 := r_ensure g rs in
+  let rs2 := if has_label h p then rs1
+             else let d := decl_get ds g in
+                  r_attach g (if d_init d then d_group d else norm_group g (c_group (acfg_of h g))) rs1 in
+  if node then r_setsat g rs2 else rs2.
+
+(* [ds]: the declarations BEFORE the op *)
+Definition rec_step (h : hdr) (prev : sview) (ds : dstate) (rs : rstate) (o : op) : rstate :=
+  match o with
+  | PodAdd p node => rec_pod h ds rs p node
+  | PodUpdate p node terminated => if terminated then rs else rec_pod h ds rs p node
+  | PodDelete p =>
+      let g := gang_of h p in
+      if g =? 0 then rs else
+      match assocZ g ds with
+      | None => rs
+      | Some d =>
+          let d' := decl_children d (srem p (d_children d)) in
+          if negb (d_crd d') && is_nil (d_children d') then r_drop ds g d rs else rs
+      end
+  | PGAdd g c =>
+      if valid_gid h g then
+        let rs1 := r_ensure g rs in
+        if (c_min c <=? lenZ (d_children (decl_get ds g))) && is_nil (pending_of prev g) then rs1
+        else r_attach g (norm_group g (c_group c)) rs1
+      else rs
+  | PGUpdate g c =>
+      if valid_gid h g then
+        match assocZ g ds with
+        | None => rs
+        | Some d0 =>
+            let n := lenZ (d_children d0) in
+            if negb (d_init d0 && (d_min d0 <=? n)) && (c_min c <=? n) && is_nil (pending_of prev g) then rs
+            else r_attach g (norm_group g (c_group c)) rs
+        end
+      else rs
+  | PGDelete g =>
+      if valid_gid h g then match assocZ g ds with Some d => r_drop ds g d rs | None => rs end else rs
+  | PostBind p => let g := gang_of h p in if g =? 0 then rs else r_setsat g rs
+  | _ => rs
+  end.
+
+(* what the tracker expects to see *)
+Definition r_recs (rs : rstate) : list (list Z * bool) :=
+  map (fun kr => (fst kr, i_sat (r_info rs (snd kr)))) (r_gmap rs).
+Definition r_sat (rs : rstate) (g : Z) : option bool := option_map (fun r => i_sat (r_info rs r)) (assocZ g (r_ptr rs)).
+Definition r_wire (rs : rstate) (g : Z) : option (list Z * bool) :=
+  option_map (fun r => (i_key (r_info rs r), i_initd (r_info rs r))) (assocZ g (r_ptr rs)).
+
+Definition rec_eqb (a b : list Z * bool) : bool := list_eqb (fst a) (fst b) && Bool.eqb (snd a) (snd b).
+Definition rec_inb (a : list Z * bool) (l : list (list Z * bool)) : bool := existsb (rec_eqb a) l.
+Definition recs_eqb (a b : list (list Z * bool)) : bool :=
+  forallb (fun e => rec_inb e b) a && forallb (fun e => rec_inb e a) b.
+Definition opt_rec_eqb (a b : option (list Z * bool)) : bool :=
+  match a, b with Some x, Some y => rec_eqb x y | None, None => true | _, _ => false end.
+
+Definition gang_rec_okb (rs : rstate) (v : sview) (g : Z) : bool :=
+  match vget v g with
+  | None => true
+  | Some x =>
+      match r_sat rs g with
+      | Some b => Bool.eqb (v_sat x) b && opt_rec_eqb (assocZ g (sv_wire v)) (r_wire rs g)
+      | None => false
+      end
+  end.
+Definition rec_matchb (rs : rstate) (v : sview) : bool :=
+  recs_eqb (r_recs rs) (sv_recs v) && forallb (gang_rec_okb rs v) (map fst (sv_gangs v)).
+
+(* the map holds exactly the tracked records with the tracked flags; every gang in the cache shows the
+   flag of, and is wired to, the tracked record *)
+Definition rec_match (rs : rstate) (v : sview) : Prop :=
+  (forall e, In e (r_recs rs) <-> In e (sv_recs v))
+  /\ forall g x, vget v g = Some x ->
+       r_sat rs g = Some (v_sat x) /\ assocZ g (sv_wire v) = r_wire rs g.
+
 (* ---------- per-operation decision ---------- *)
 Definition quiet (r : out) (cur : sview) (fw' : list Z) : bool :=
   is_nil (o_rejected r) && set_eqb (sv_fw cur) fw'.
@@ -258,25 +395,28 @@ Definition check_op (h : hdr) (strict : bool) (prev : sview) (o : op) (r : out) 
   | _ => check_event prev r cur
   end.
 
-Definition step_code (h : hdr) (tainted : bool) (ds : dstate) (prev : sview) (o : op) (r : out) (cur : sview) : Z :=
+Definition step_code (h : hdr) (tainted : bool) (ds : dstate) (rs : rstate) (prev : sview) (o : op) (r : out) (cur : sview) : Z :=
   if negb tainted && negb (all_part_okb cur) then 1
   else if negb (decl_matchb ds cur) then 8
+  else if negb (rec_matchb rs cur) then 9
   else check_op h (negb tainted) prev o r cur.
 
-(* [ds]: the declarations after the ops walked so far; [prev]: the previous observation *)
-Fixpoint prop_walk (h : hdr) (tainted : bool) (ds : dstate) (prev : sview) (ops : list op) (l : list obs) : Z :=
+(* [ds], [rs]: the declarations / group records after the ops walked so far; [prev]: the previous
+   observation. 10 = the observation list does not have one entry per op *)
+Fixpoint prop_walk (h : hdr) (tainted : bool) (ds : dstate) (rs : rstate) (prev : sview) (ops : list op) (l : list obs) : Z :=
   match ops, l with
   | [], [] => 0
   | o :: ops', (r, cur) :: l' =>
       let tainted' := tainted || permit_guard_viol h prev o in
       let ds' := decl_step h ds o in
-      let c := step_code h tainted' ds' prev o r cur in
-      if c =? 0 then prop_walk h tainted' ds' cur ops' l' else c
-  | _, _ => 9
+      let rs' := rec_step h prev ds rs o in
+      let c := step_code h tainted' ds' rs' prev o r cur in
+      if c =? 0 then prop_walk h tainted' ds' rs' cur ops' l' else c
+  | _, _ => 10
   end.
 
 Definition prop_code (h : hdr) (ops : list op) (l : list obs) : Z :=
-  prop_walk h false [] (view init_state) ops l.
+  prop_walk h false [] rstate0 (view init_state) ops l.
 
 (* ---------- the same as Props ---------- *)
 Notation same_set := same_set0.
@@ -321,18 +461,20 @@ Definition op_holds (h : hdr) (strict : bool) (prev : sview) (o : op) (r : out) 
   | _ => event_holds prev r cur
   end.
 
-Fixpoint holds_walk (h : hdr) (tainted : bool) (ds : dstate) (prev : sview) (ops : list op) (l : list obs) : Prop :=
+Fixpoint holds_walk (h : hdr) (tainted : bool) (ds : dstate) (rs : rstate) (prev : sview) (ops : list op) (l : list obs) : Prop :=
   match ops, l with
   | [], [] => True
   | o :: ops', (r, cur) :: l' =>
       let tainted' := tainted || permit_guard_viol h prev o in
       let ds' := decl_step h ds o in
+      let rs' := rec_step h prev ds rs o in
       (tainted' = false -> all_partition_ok cur)
       /\ decl_match ds' cur
+      /\ rec_match rs' cur
       /\ op_holds h (negb tainted') prev o r cur
-      /\ holds_walk h tainted' ds' cur ops' l'
+      /\ holds_walk h tainted' ds' rs' cur ops' l'
   | _, _ => False
   end.
 
 Definition C04_holds (h : hdr) (ops : list op) (l : list obs) : Prop :=
-  holds_walk h false [] (view init_state) ops l.
+  holds_walk h false [] rstate0 (view init_state) ops l.
